@@ -144,6 +144,7 @@ type FnCtx struct {
 	entryScope map[string]Val
 	entryLocks []string
 	loopEntries map[int]*State
+	capturedVars map[string]types.Object // closure under contract: variables of the enclosing function it uses
 	iterMarks   []iterMark // root only: allocation watermark at the start of the (arbitrary) iteration of each loop being executed
 	canaries []*Obligation
 	havocFor int
@@ -448,7 +449,7 @@ func (fc *FnCtx) readField(st *State, base Val, i int) Val {
 		return v
 	}
 	if isOpaqueStruct(sT) {
-		return Val{fc.smt.zero(f.Type()), f.Type()}
+		return fc.opaqueField(st, base, sT, f)
 	}
 	ss := fc.smt.structSort(sT, su)
 	return Val{"(" + ss.sels[i] + " " + base.T + ")", f.Type()}
@@ -714,4 +715,21 @@ func mergeTerm(c, a, b string) string {
 		return sto(B, j, mergeTerm(c, sel(B, j), w))
 	}
 	return ite(c, a, b)
+}
+
+// opaqueField: a field of a struct VALUE whose type is kept abstract (reflect.StructField, ...) is an uninterpreted
+// function of that value - unknown, but the same at every read. (It used to read as the zero value, which made every
+// branch that depends on such a field look dead.)
+func (fc *FnCtx) opaqueField(st *State, base Val, sT types.Type, f *types.Var) Val {
+	tn := "anon"
+	if n := namedOf(sT); n != nil {
+		tn = qualName(n)
+	}
+	fn := "opqf_" + sanitize(tn) + "_" + sanitize(f.Name())
+	fc.smt.declare(fn, fmt.Sprintf("(declare-fun %s (Opaque) %s)", fn, fc.smt.sortOf(f.Type())))
+	v := Val{"(" + fn + " " + base.T + ")", f.Type()}
+	if st != nil {
+		fc.assumeTyped(st, v)
+	}
+	return v
 }
